@@ -205,7 +205,99 @@ def known_for(cls, pattern):
     return None
 
 
+# numeric fields that every rendering of the layout shows as a plain number (offset, size); type / flag / version fields are
+# left out (they take part in the layout's plausibility score), so are floats, and 2-byte values stay below 0x2000 (comp_t
+# counters are 13-bit mantissas with an exponent: above that two bit patterns can denote one number)
+NUMERIC = {
+    "linux_x86_utmpx": ((4, 4), (332, 2), (334, 2), (336, 4), (348, 4), (352, 4), (356, 4), (360, 4)),
+    "linux_arm64_utmpx": ((4, 4), (332, 4), (336, 8), (360, 4), (364, 4), (368, 4), (372, 4)),
+    "linux_x86_acct_v3": ((2, 2), (4, 4), (8, 4), (12, 4), (16, 4), (20, 4), (32, 2), (34, 2), (36, 2), (38, 2), (40, 2), (42, 2), (44, 2), (46, 2)),
+    "linux_x86_acct": ((2, 2), (4, 2), (6, 2), (12, 2), (14, 2), (16, 2), (18, 2), (20, 2), (22, 2), (24, 2), (26, 2)),
+    "netbsd_x8632_acct": ((16, 2), (18, 2), (20, 2), (32, 4), (36, 4), (40, 2), (42, 2), (44, 4)),
+    "netbsd_x8632_utmpx": ((324, 2), (328, 4), (332, 2), (334, 2)),
+    "netbsd_x8664_utmpx": ((324, 2), (328, 4), (332, 2), (334, 2)),
+}
+
+
+def run_twin_case(seed, i, tier):
+    """'each printed line shows that record's own field values': the same file twice, the second time with ONE numeric field
+    of ONE record holding another value. Every other record's line must be the same in both runs, and that record's line must
+    not be -- a value that does not reach the line (or reaches a neighbour's) is a field the line does not show."""
+    rng = core.rng_for(seed, PROP, i)
+    name = rng.choice(sorted(NUMERIC))
+    size, so, ss, uo, us, fields, fname, *_ = layouts.LAYOUTS[name]
+    n = rng.choice((1, 2, 3, 5, 8))
+    raw, recs, pattern = gen_records(rng, name, n)
+    j = rng.randrange(len(recs))
+    # locate record j in the file (null records may lie between)
+    offs = [o for o in range(0, len(raw), size) if any(raw[o:o + size])]
+    assert len(offs) == len(recs), (len(offs), len(recs))
+    off, sz = rng.choice(NUMERIC[name])
+    old = raw[offs[j] + off:offs[j] + off + sz]
+    while True:
+        if sz == 2:
+            v = rng.choice((1, 2, 255, 256, 0x1FFF, rng.randrange(1, 0x2000)))
+        else:
+            v = rng.choice((1, 2, 255, 256, 65536, 0x01000000, 0x7FFFFFFF, rng.randrange(1, 2**31)))
+        new = v.to_bytes(sz, "little")
+        if new != old:
+            break
+    raw2 = raw[:offs[j] + off] + new + raw[offs[j] + off + sz:]
+    opts = ["--color", "never", "--tz-offset", "+00:00"] + (["--blocksz", str(max(64, rng.choice((size, 2 * size, 1000))))] if rng.random() < 0.4 else [])
+    prng = core.rng_for(seed, PROP, i, "plan")
+    plan = core.random_plan(prng, 1, budget=3_000_000)
+    plan.hashseed = rng.getrandbits(32)
+    cr = CaseResult()
+    outs = []
+    scn2 = None
+    for data in (raw, raw2):
+        scn = core.Scenario([core.FileSpec(fname, data, 1600000000)], opts + [fname], None, "UTC")
+        scn2 = scn
+        res = core.execute(scn, plan)
+        cr.runs += 1
+        cr.steps += res.trace.steps
+        cr.steps_max = max(cr.steps_max, res.trace.steps)
+        cr.decision_hashes.append(res.trace.decision_hash())
+        cr.arrival_hashes.append(res.trace.arrival_hash())
+        outs.append(res)
+    cr.policies[plan.policy.split(":")[0]] += 1
+    cr.probes["twin_file_one_numeric_field_changed"] += 1
+    cr.probes["layout_" + name] += 1
+    cr.nontrivial_keys.append(core.derive(0, scn2.digest()))
+    vs = mergecheck.evaluate(outs[0], None, check_protocol=False) or mergecheck.evaluate(outs[1], None, check_protocol=False)
+    if not vs:
+        d = twin_check(outs[0].stdout, outs[1].stdout, recs, j, off, sz, old, new)
+        if d:
+            vs.append(("changed_field_value_not_shown_by_its_own_line", d))
+    for (cls, detail) in vs:
+        rp = {"kind": "twin", "scenario": core.Scenario([core.FileSpec(fname, raw, 1600000000)], opts + [fname], None, "UTC").to_json(),
+              "scenario2": scn2.to_json(), "plan": plan.as_replay(outs[1].trace).to_json(), "class": cls, "layout": name,
+              "recs": [{"idx": r["idx"], "sec": r["sec"], "usec": r["usec"], "markers": {k: v_.decode() for k, v_ in r["markers"].items()}} for r in recs],
+              "j": j, "off": off, "sz": sz, "old": old.hex(), "new": new.hex()}
+        cr.violations.append(Violation(cls, "layout=%s n=%d record %d field at +%d (%d bytes) %s -> %s: %s" % (name, len(recs), j, off, sz, old.hex(), new.hex(), detail), rp))
+    cr.sample = {"argv": opts + [fname], "layout": name, "records": len(recs), "changed": {"record": j, "offset": off, "size": sz}}
+    return cr
+
+
+def twin_check(out1, out2, recs, j, off, sz, old, new):
+    def lines(b):
+        return [l.lstrip(b"\x00") for l in b.split(b"\n") if l.strip(b"\x00")]
+    l1, l2 = lines(out1), lines(out2)
+    order = [r["idx"] for r in expected_order(recs, None, None)]
+    if len(l1) != len(order) or len(l2) != len(order):
+        return "printed %d and %d lines for %d records" % (len(l1), len(l2), len(order))
+    pos = order.index(recs[j]["idx"])
+    for k in range(len(order)):
+        if k != pos and l1[k] != l2[k]:
+            return "the line of record %d changed although only record %d was altered: %r -> %r" % (order[k], recs[j]["idx"], l1[k][:200], l2[k][:200])
+    if l1[pos] == l2[pos]:
+        return "record %d: the %d bytes at +%d went from %s to %s and its printed line stayed the same: %r" % (recs[j]["idx"], sz, off, old.hex(), new.hex(), l1[pos][:300])
+    return None
+
+
 def run_case(seed, i, tier):
+    if i % 6 == 4 and not FORCE_WINDOW:
+        return run_twin_case(seed, i, tier)
     rng = core.rng_for(seed, PROP, i)
     name = rng.choice(sorted(layouts.LAYOUTS))
     size, so, ss, uo, us, fields, fname, *_ = layouts.LAYOUTS[name]
@@ -279,6 +371,16 @@ def run_case(seed, i, tier):
 
 
 def classes_of(rp):
+    if rp.get("kind") == "twin":
+        plan = core.Plan.from_json(rp["plan"])
+        r1 = core.execute(core.Scenario.from_json(rp["scenario"]), plan)
+        r2 = core.execute(core.Scenario.from_json(rp["scenario2"]), plan)
+        cl = set(c for (c, _) in (mergecheck.evaluate(r1, None, check_protocol=False) or mergecheck.evaluate(r2, None, check_protocol=False)))
+        if not cl:
+            recs = [{"idx": r["idx"], "sec": r["sec"], "usec": r["usec"], "markers": {}} for r in rp["recs"]]
+            if twin_check(r1.stdout, r2.stdout, recs, rp["j"], rp["off"], rp["sz"], bytes.fromhex(rp["old"]), bytes.fromhex(rp["new"])):
+                cl.add("changed_field_value_not_shown_by_its_own_line")
+        return cl
     scn = core.Scenario.from_json(rp["scenario"])
     plan = core.Plan.from_json(rp["plan"])
     res = core.execute(scn, plan)
